@@ -2,21 +2,21 @@
 # usage: seed_confirm.sh <ID>   — independent confirmation of a seeded change prepared in /tmp/wt/<ID>
 # (1) patch.diff is exactly the working-tree change; (2) demo fails with it; (3) demo passes without it;
 # (4) the unedited test suite passes with it.  Writes /verif/seeded/<ID>/{patch.diff,demo_<ID>.py,meta.json,confirm.log}
-id=$1; wt=/tmp/wt/$id; out=/verif/seeded/$id
+id=$1; base=${WT:-/tmp/wt}; wt=$base/$id; out=/verif/seeded/$id${SUF:-}
 [ -f $wt/patch.diff ] || { echo "$id: no patch.diff"; exit 2; }
 mkdir -p $out; log=$out/confirm.log; : > $log
 cd $wt
-git diff -- ndonnx > /tmp/wt/$id.cur.diff
-if ! cmp -s /tmp/wt/$id.cur.diff patch.diff; then echo "patch.diff differs from working-tree diff; using working-tree diff" >> $log; cp /tmp/wt/$id.cur.diff patch.diff; fi
+git diff -- ndonnx > $base/$id.cur.diff
+if ! cmp -s $base/$id.cur.diff patch.diff; then echo "patch.diff differs from working-tree diff; using working-tree diff" >> $log; cp $base/$id.cur.diff patch.diff; fi
 [ -n "$(git status --short -- tests)" ] && { echo "$id: tests edited!" | tee -a $log; exit 2; }
-PYTHONHASHSEED=0 timeout 900 /venv/bin/python demo_$id.py > /tmp/wt/$id.demo_with.out 2>&1; rc_with=$?
+PYTHONHASHSEED=0 timeout 900 /venv/bin/python demo_$id.py > $base/$id.demo_with.out 2>&1; rc_with=$?
 git apply -R patch.diff || { echo "$id: cannot reverse patch" | tee -a $log; exit 2; }
-PYTHONHASHSEED=0 timeout 900 /venv/bin/python demo_$id.py > /tmp/wt/$id.demo_without.out 2>&1; rc_without=$?
+PYTHONHASHSEED=0 timeout 900 /venv/bin/python demo_$id.py > $base/$id.demo_without.out 2>&1; rc_without=$?
 git apply patch.diff
-echo "demo with change: rc=$rc_with; last lines:" >> $log; tail -5 /tmp/wt/$id.demo_with.out >> $log
-echo "demo without change: rc=$rc_without; last lines:" >> $log; tail -3 /tmp/wt/$id.demo_without.out >> $log
-timeout 3000 /venv/bin/python -m pytest -q -p no:cacheprovider --timeout=900 -x > /tmp/wt/$id.tests.out 2>&1; rc_tests=$?
-echo "test suite with change: rc=$rc_tests: $(tail -1 /tmp/wt/$id.tests.out)" >> $log
+echo "demo with change: rc=$rc_with; last lines:" >> $log; tail -5 $base/$id.demo_with.out >> $log
+echo "demo without change: rc=$rc_without; last lines:" >> $log; tail -3 $base/$id.demo_without.out >> $log
+timeout 3000 /venv/bin/python -m pytest -q -p no:cacheprovider --timeout=900 -x > $base/$id.tests.out 2>&1; rc_tests=$?
+echo "test suite with change: rc=$rc_tests: $(tail -1 $base/$id.tests.out)" >> $log
 cp patch.diff demo_$id.py meta.json $out/
 ok=no; [ $rc_with -ne 0 ] && [ $rc_without -eq 0 ] && [ $rc_tests -eq 0 ] && ok=yes
 echo "confirmed=$ok" >> $log
